@@ -971,6 +971,43 @@ func ruleURLShape(r *core.Reporter) {
 				if tn, f, ok := ir.FieldOf(x.X); ok && tn == "net/url.URL" && (f == "Path" || f == "Fragment" || f == "Opaque") {
 					lossy = f
 				}
+			case *ssa.Call:
+				// String() of a url.URL assembled field by field in this function: without RawPath the path is
+				// re-escaped from its decoded form
+				if ir.IsCallTo(x, "(*net/url.URL).String") && len(x.Call.Args) == 1 {
+					if al, isA := ir.Strip(x.Call.Args[0]).(*ssa.Alloc); isA {
+						fields := map[string]bool{}
+						var collect func(a *ssa.Alloc, d int)
+						collect = func(a *ssa.Alloc, d int) {
+							if d > 2 {
+								return
+							}
+							for _, rr := range ir.Referrers(a) {
+								if fa, isFA := rr.(*ssa.FieldAddr); isFA {
+									for _, r2 := range ir.Referrers(fa) {
+										if _, isSt := r2.(*ssa.Store); isSt {
+											if _, f, okf := ir.FieldOf(fa); okf {
+												fields[f] = true
+											}
+										}
+									}
+								}
+								// `*base = *complit`: the literal is assembled in a temporary
+								if st, isSt := rr.(*ssa.Store); isSt && st.Addr == ssa.Value(a) {
+									if ld, isLd := st.Val.(*ssa.UnOp); isLd && ld.Op == token.MUL {
+										if src, isSrc := ld.X.(*ssa.Alloc); isSrc {
+											collect(src, d+1)
+										}
+									}
+								}
+							}
+						}
+						collect(al, 0)
+						if fields["Path"] && !fields["RawPath"] {
+							lossy = "Path (copied into a new url.URL without RawPath)"
+						}
+					}
+				}
 			}
 		}
 		walk(c.Call.Args[1], 0)
